@@ -157,6 +157,8 @@ func VerifBranchPrecedencePrefix() {
 		// through it alone)
 		{tag: "self", path: []string{"choices", "case1"}, in: true},
 		{tag: "log", path: []string{"choices", "case1", "log"}, in: true},
+		// the same path held by a second intent (several entries under one index key)
+		{tag: "log2", path: []string{"choices", "case1", "log"}, in: true},
 		{tag: "elem", path: []string{"choices", "case1", "case-elem", "elem"}, in: true},
 		{tag: "other", path: []string{"choices", "case2", "log"}},
 		{tag: "ext", path: []string{"choices", "case10", "log"}},
@@ -171,6 +173,14 @@ func VerifBranchPrecedencePrefix() {
 		e.prio = verifrt.Int32("prio." + e.tag)
 		verifrt.Assume(verifrt.And(e.prio >= 1, e.prio < 1000))
 		e.owner = owners[verifrt.Choice("owner."+e.tag, len(owners))]
+		if e.tag == "log2" {
+			// an intent holds a path once
+			for _, e1 := range entries {
+				if e1.tag == "log" && e1.pres {
+					verifrt.Assume(e1.owner != e.owner)
+				}
+			}
+		}
 		key := ""
 		for i, p := range e.path {
 			if i > 0 {
